@@ -285,6 +285,20 @@ pub fn c16(h: &mut H) {
                 }
             }
         }
+        // group elements replaced by their NEGATIVES modulo n (n - x): another field value, the same square
+        for (li, (path, val)) in lv.iter().enumerate() {
+            if *val <= 0 || *val >= n || val.significant_bits() + 64 < n.significant_bits() { continue; }
+            if path.ends_with(".C") || path.ends_with(".challenge") || path.contains(".D") || path.ends_with(".d") || path.contains(".d_") { continue; }
+            let mut z = rp.clone();
+            let mut cnt = 0usize;
+            let nn = n.clone();
+            let f = move |x: &Integer| Integer::from(&nn - x);
+            map_leaf(&mut z, &mut cnt, li, &f);
+            h.stat("C16.leaf_negated");
+            let v = rverify(h, &z, &g, &hh, &n, &a, &b);
+            let class = if path == ".E" || path == "E" { "C16.leaf_negated_E".to_string() } else { "C16.leaf_negated".to_string() };
+            h.expect(!v.is_true(), &class, &format!("range proof accepted with the group element {} replaced by its negative modulo n", path), &[h.last()]);
+        }
         // hash-valued leaves shifted by multiples of 2^128 (a verifier that compares challenges modulo 2^t)
         for (li, (path, _)) in lv.iter().enumerate() {
             if path.ends_with(".C") || path.ends_with(".challenge") {
